@@ -117,6 +117,35 @@ theorem refine_bounded_of_nonneg_map (h w : Nat) (img : Nat → Nat → R) (q x 
   rw [← halfSpan_eq hq]
   exact refinePoint_bounded_of_nonneg_map h w img q x y hq hx hy hnn hpos
 
+/-- **The excluded region, quantified** (any signs in the patch, any patch size `q ≥ 1`): whenever a
+refined point exists (patch sum ≠ 0) it is displaced by at most `(q-1)/2 · Σ|P| / |ΣP|` in x and in y.
+For a non-negative patch `Σ|P| = ΣP` and this is `refine_bounded_partial`; with negative entries the
+factor `Σ|P|/|ΣP|` is unbounded — that is finding F-C06 — and it is the conditioning number the
+correspondence scales its tolerance with. -/
+theorem refine_displacement_le (h w : Nat) (img : Nat → Nat → R) (q x y : Nat) (hq : 1 ≤ q) (px py : R)
+    (hpt : refinePoint h w img q x y = some (px, py)) :
+    patchSum q (patch h w img q x y) ≠ 0 ∧
+    |px - x| ≤ ((q : R) - 1) / 2 * patchAbsSum q (patch h w img q x y) / |patchSum q (patch h w img q x y)| ∧
+    |py - y| ≤ ((q : R) - 1) / 2 * patchAbsSum q (patch h w img q x y) / |patchSum q (patch h w img q x y)| := by
+  rw [← halfSpan_eq hq]
+  exact refinePoint_displacement_le h w img q x y px py hpt
+
+/-- the bound of `refine_displacement_le` is attained by the F-C06 witness: Σ|P| = 19/10, ΣP = 1/10,
+(q−1)/2 = 2 give 38 ≥ |12 − 3| -/
+example : patchAbsSum (R := Rat) 5 (patch 7 7 (fun i j => if i = 3 ∧ j = 3 then 1 else if i = 3 ∧ j = 2 then -9/10 else 0) 5 3 3) = 19/10 ∧
+    patchSum (R := Rat) 5 (patch 7 7 (fun i j => if i = 3 ∧ j = 3 then 1 else if i = 3 ∧ j = 2 then -9/10 else 0) 5 3 3) = 1/10 := by
+  constructor
+  · simp [patchAbsSum, Finset.sum_range_succ, patch, cropZ, zeroPadAt, inB]; norm_num
+  · decide +kernel
+
+/-- **Number, order, sample/channel indices and values are unchanged by refinement**, stated about the
+pipeline `find_local_peaks(refinement="integral")` itself. -/
+theorem local_peaks_refined_fields (big thr : R) (q : Nat) (b : Batch R) :
+    (localPeaks big thr q b).length = (localPeaksRough big thr b).length ∧
+    (localPeaks big thr q b).map (fun e => (e.val, e.sample, e.channel)) =
+      (localPeaksRough big thr b).map (fun p => (p.val, p.sample, p.channel)) :=
+  refine_preserves q b (localPeaksRough big thr b)
+
 /-- hypotheses of `refine_bounded_partial` are satisfiable: a 3×3 map with a non-centred blob, odd
 patch (3) and even patch (2: means of four cells, grid `±1/2`). -/
 example : refinePoint (R := Rat) 3 3 (fun i j => if i = 1 ∧ j = 1 then 1 else if i = 1 ∧ j = 2 then 1/2 else 0) 3 1 1
